@@ -132,6 +132,14 @@ def oracle(pre, pool, op, outcome, cfg):
             pass
         elif name in VALUE_OPS and exc != "ValueError":
             out.append(("refused-with-wrong-exception", exc, False))
+    if outcome[0] == "ok" and name in ("ctor", "set_values", "extend"):
+        # an accepted list stores every one of its items (None and empty items mean 'no value'): an item that cannot be
+        # converted is refused, not dropped
+        given = OPS.ATOM[op[2] if name == "ctor" else op[1]]()
+        if type(given) is list and given and all(x is not None and x != "" and x != [] and x != {} for x in given):
+            stored = len(post[2]) - (len(pre[2]) if name == "extend" else 0)
+            if stored < len(given):
+                out.append(("accepted-list-lost-items", "%d item(s) given, %d stored: %r" % (len(given), stored, post[2]), True))
     bad = invariant(p)
     for clause, detail in bad:
         out.append((clause, detail, True))
